@@ -5,7 +5,7 @@ From Coq Require Import ZArith List Bool Lia.
 From CiwV Require Import Sx Prelude.
 From CiwV.Engine Require Import State Engine Codec.
 From CiwV.Inv Require Import Frame Conserve ConserveRun Capacity SysCap CapacityRun Clock Samples Servers NonIdle Route Blocking Horizon Journey HorizonCount.
-From CiwV.Inv Require TrackerInc.
+From CiwV.Inv Require TrackerInc DateSum.
 Import ListNotations.
 Open Scope Z_scope.
 
@@ -55,6 +55,26 @@ Definition run_jrn_real (inp : sx) : sx :=
   end.
 Theorem run_jrn_real_sound cf st hs al : jrn_b cf (an_of al) st hs = true -> Jrn cf (an_of al) st hs.
 Proof. apply jrn_b_sound. Qed.
+
+(* C20 (dispatch_model 43): the hypothesis on the draws and the conclusion of DateSum.run_many_grid / records_ds on one REAL event:
+   L [A g; cfg; snapshot AFTER the event; the draws the event consumed; L records it wrote]
+   -> L [the time draws are multiples of g; every date and duration of the snapshot and of the records is a multiple of g and the records'
+         durations are the differences of their dates] *)
+Definition with_log (st : sim) (hs : list rec) : sim :=
+  mkSim (now st) (next_active st) (arr st) (nodes st) (exit_ids st) (exit_n st) (exit_completed st) (inds st) (dr st) hs.
+Definition run_grid (inp : sx) : sx :=
+  match inp with
+  | L [A g; c; s; d; h] =>
+    match dec_cfg c, dec_sim s d, (do l <- getL h; omap dec_rec l) with
+    | Some cf, Some st, Some hs =>
+      L [bit (forallb (fun x => x mod g =? 0) (d_arr (dr st)) && forallb (fun x => x mod g =? 0) (d_svc (dr st)));
+         bit (DateSum.ds_b g cf (with_log st hs))]
+    | _, _, _ => A (-1)
+    end
+  | _ => A (-1)
+  end.
+Theorem run_grid_sound g cf st hs : DateSum.ds_b g cf (with_log st hs) = true -> DateSum.Grid g (with_log st hs).
+Proof. apply DateSum.ds_b_sound. Qed.
 
 (* C17: the tracker calls the ENGINE MODEL says one event makes (TrackerInc.calls_event_step, the ghost call list the T2 theorems of
    TrackerInc.v are about), for comparison with the calls the real engine makes to its tracker in that event (dispatch_model 41):
